@@ -187,13 +187,17 @@ CLAIMED = {
              "error for every k_exp) nor on the reference area; closed forms: C15_nearby_supply_closed_form (any DHW supply "
              "without electricity, ambient heat or biomass: the renewable part of what solar thermal and district networks "
              "supply, over the demand; C15_solar_boiler), C15_direct_electric_closed_form (on-site electricity used for DHW "
-             "over the demand). PARTIAL: the closed forms of the other canonical mixes (heat pump, biomass), the range "
-             "[0,1] for consistent demands, the invariance under non-EPB and other services' non-electric consumption, and the biomass-without-"
-             "output error are decided by the differential run only: model vs implementation on every generated building, "
-             "and those statements evaluated on implementation outputs.",
+             "over the demand), C15_without_biomass (any supply without biomass — direct electric + PV, heat pumps, solar "
+             "thermal, networks, boilers and their combinations: renewable part of the nearby supply plus on-site electricity "
+             "used for DHW; C15_heat_pump), C15_biomass_nearby (one biomass kind with nearby carriers only: what the others "
+             "do not supply of the demand is attributed to the biomass), C15_biomass_mixed (biomass with a non-nearby "
+             "carrier: declared output energy counts) and C15_biomass_mixed_without_output (error instead of a number). "
+             "PARTIAL: the range [0,1] for consistent demands and the invariance under non-EPB and other services' "
+             "non-electric consumption are decided by the differential run only: model vs implementation on every generated "
+             "building, and those statements evaluated on implementation outputs.",
         design_ref="DESIGN.md §6 C15",
         note="Trusted: Coq kernel + vm_compute; model tied by differential testing (absolute 5e-4 on the fraction). Partial claim as stated; 'consistent demand' is constructed by the generator.",
-        technique="Coq model + theorems for error cases and k/area independence + model/impl correspondence + closed-form/invariance oracle"),
+        technique="Coq model + theorems for error cases, k/area independence and the closed forms of the canonical mixes + model/impl correspondence + closed-form/invariance oracle"),
     "C19": dict(
         text="Coq decision model of main()'s option handling (Model/Cli.v: resolve over tri-state arguments Absent / "
              "Invalid / Given for k_exp, area, RED1, RED2 on both origins, factors file, -l, CTE_LOCALIZACION). Theorems: "
